@@ -166,6 +166,18 @@ def check(ctx):
     ctx.ob("C19.R2", gel, "posterior_only selects exactly the POSTERIOR epochs of the "
                           "transition infos, otherwise all epochs", ok, stmt="phase selection")
 
+    # transition infos are recorded for EVERY transition (not thinned), so that every
+    # returned code is counted
+    eng = repo.cls("liesel.goose.engine.Engine")
+    rei = evaluate(repo, method(repo, eng, "__init__"))
+    tic = [val for loc, val, _, _ in rei.stores if loc == ("a", SELF, "_transition_info_chain")]
+    ok = (len(tic) == 1 and is_call(tic[0], "liesel.goose.chain.EpochChainManager")
+          and kw(tic[0], "apply_thinning", 0) in (None, c(False)))
+    ctx.ob("C19.R2", method(repo, eng, "__init__"), "the transition-info chain stores every "
+                                                    "transition (thinning is not applied to "
+                                                    "it), so no returned code is dropped",
+           ok, detail=short(tic[0]) if tic else "", stmt="transition infos thinned")
+
     mes = repo.func("liesel.goose.summary_m._make_error_summary")
     rm = evaluate(repo, mes)
     outer = [l_ for l_ in rm.loops if l_["iter"] == ("call", ("a", n("error_log"), "values"), (), ())]
